@@ -139,7 +139,12 @@ def evaluate(case) -> Result:
                 dwrs = [f for f in c.refresh() if f.code == W.CMD_DW and f.is_request]
                 ids = {"hbh": dwrs[-1].h["hbh"], "e2e": dwrs[-1].h["e2e"]} if dwrs else {"hbh": hbh, "e2e": hbh}
                 flush_partial()
-                w.feed_msg(c, dict(ids, k="DWA", host=H))
+                # whatever the DWA carries, it is the peer's sign of life: 2001, an error result or none at all
+                variant = ev[1] if len(ev) > 1 else None
+                extra_ = {"result": variant} if isinstance(variant, int) else ({"no_result": True} if variant == "none" else {})
+                if variant is not None:
+                    res.classes.append(f"dwa-result:{variant}")
+                w.feed_msg(c, dict(ids, k="DWA", host=H, **extra_))
                 fed = "DWA"
             new = c.refresh()[n_out:]
             n_out = len(c.out)
@@ -233,6 +238,7 @@ def shard_main(shard, nshards, tier, scale):
         big = max(timers["idle"], timers["dwa"], timers["p_idle"] or 0, timers["p_dwa"] or 0)
         adv = st.tuples(st.just("ADV"), st.one_of(st.integers(1, 3), st.integers(1, max(2, big + 12))))
         ev = st.one_of(adv, adv, adv, adv, st.tuples(st.just("TRAFFIC")), st.tuples(st.just("DWR")), st.tuples(st.just("DWA")),
+                       st.tuples(st.just("DWA"), st.sampled_from([3004, 5012, "none"])),
                        st.tuples(st.just("BLOCK_TX")), st.tuples(st.just("UNBLOCK_TX")),
                        st.tuples(st.just("FRAG"), st.integers(1, 24)), st.tuples(st.just("FRAG"), st.integers(1, 24)))
         return {"dir": draw(st.sampled_from(["in", "out"])), "timers": timers, "seed": draw(st.integers(0, 3)),
@@ -261,7 +267,7 @@ def shard_main(shard, nshards, tier, scale):
         if delay is None:
             ev += [["ADV", 1]] * (dwa + wake + 3)
         else:
-            ev += [["ADV", 1]] * delay + [["DWA"]] + [["ADV", 1]] * (idle + wake + 2)
+            ev += [["ADV", 1]] * delay + [["DWA"] if (idle + dwa + wake + delay) % 3 else ["DWA", 3004]] + [["ADV", 1]] * (idle + wake + 2)
         case = {"dir": d, "timers": {"idle": idle, "dwa": dwa, "wakeup": wake, "p_idle": None, "p_dwa": None},
                 "events": ev}
         res = evaluate(case)
@@ -275,7 +281,7 @@ def run(tier, scale=1.0):
     rec = Recorder(PID)
     for d in hyp.pool_run(shard_main, (tier, scale)):
         rec.merge(d)
-    required = {"identity:respelled": 1, "fragment": 1, "tx-blocked": 1, "dir:in": 1, "dir:out": 1, "episodes:2": 1, "closed-by-watchdog": 1, "peer-idle:True": 1,
+    required = {"dwa-result:3004": 1, "dwa-result:none": 1, "identity:respelled": 1, "fragment": 1, "tx-blocked": 1, "dir:in": 1, "dir:out": 1, "episodes:2": 1, "closed-by-watchdog": 1, "peer-idle:True": 1,
                 "peer-dwa:True": 1, "outcomes:2": 1}
     return finish(rec, tier=tier, level="exploration", rule=RULE, assumptions=ASSUME, t0=t0,
                   required_classes=required)
